@@ -1,10 +1,33 @@
 import GwcsModel.Tab
+import GwcsModel.Remap
 open Lean
 namespace Gwcs.Drv.C11
 open Gwcs Gwcs.Tab
 
+/-- {"remap": {"kind":"PC"|"CD","nlon","nlat","iax1","iax2","n","b":[[b00,b01],[b10,b11]]}}: card positions and the two celestial rows a
+reader assembles -/
+def handleRemap (r : Json) : Json :=
+  match (do
+      let kind ← jStr (← jField r "kind")
+      let k ← (if kind == "PC" then some Remap.Kind.PC else if kind == "CD" then some Remap.Kind.CD else none)
+      let a : Remap.Ax := ⟨← jNat (← jField r "nlon"), ← jNat (← jField r "nlat"), ← jNat (← jField r "iax1"), ← jNat (← jField r "iax2")⟩
+      let n ← jNat (← jField r "n")
+      let b ← jList (jList jRat) (← jField r "b")
+      pure (k, a, n, b)) with
+  | none => badRequest "C11 remap"
+  | some (k, a, n, b) =>
+    let bf : Nat → Nat → Rat := fun i j => ((b.getD i []).getD j 0)
+    let cs := Remap.cards k a bf
+    okJson (Json.mkObj [
+      ("cards", listToJson (fun (c : Remap.Card) => Json.arr #[natToJson c.1, natToJson c.2.1, ratToJson c.2.2]) cs),
+      ("lon_row", listToJson ratToJson ((List.range n).map (fun j => Remap.readM k cs a.nlon (j + 1)))),
+      ("lat_row", listToJson ratToJson ((List.range n).map (fun j => Remap.readM k cs a.nlat (j + 1))))])
+
 /-- {"sets":[[world axes fed by pixel axis j]..], "axes":[{"lo","hi","s"}..], "used":[..], "insert":[..]} -/
 def handle (j : Json) : Json :=
+  match jField j "remap" with
+  | some r => handleRemap r
+  | none =>
   match (do
       let sets ← jList (jList jNat) (jFieldD j "sets" (Json.arr #[]))
       let axes ← jList (fun a => do pure ((← jRat (← jField a "lo")), (← jRat (← jField a "hi")), (← jRat (← jField a "s"))))
